@@ -7,6 +7,8 @@ from mc.core import bits
 from mc.world import make_shot, make_calc
 
 PID = 'C02'
+# thread bodies (defined with engine E4, mc/checks/c10_sched.py) that exercise this property's code; explored after the parts below
+SCHED_SETS = [('zero||zero', 'call'), ('zero||fire(G1)', 'call')]
 LEVEL = 'exploration'
 ENGINE = 'E1'
 TECHNIQUE = 'bounded exhaustive enumeration (full product look angle x zero distance x stored zero x wind, plus all single deviations over load and sight height); each cell zeroes with the real solver, fires back and measures the miss at the aim point'
@@ -140,7 +142,50 @@ def sequence(cell):
     return {'v': out, 'n': n, 'nt': cell}
 
 
-PARTS = {'zero': zero, 'fail': zero, 'sequence': sequence}
+EDITS = ('sight', 'mv', 'wind', 'humid', 'look', 'bc', 'atmo')
+
+
+def rezero(cell):
+    """one calculator, ONE set of argument objects: zero, edit the set-up IN PLACE, zero again at the same distance - every zeroing is a zeroing
+    of the set-up as it is now (same oracle as the zero part); all sequences of <= 2 (thorough 3) edits"""
+    import py_ballisticcalc as pb
+    U = pb.Unit
+    look, d_yd, edits = cell
+    calc = make_calc(None)
+    shot = make_shot(dict(LOADS['base'], look=look, zero=0.0, wind='none', sh=2.0))
+    out = []
+    n = 0
+    for k in range(len(edits) + 1):
+        if k:
+            e = edits[k - 1]
+            if e == 'sight':
+                shot.weapon.sight_height = U.Inch((shot.weapon.sight_height >> U.Inch) + 2.0)
+            elif e == 'mv':
+                shot.ammo.mv = U.FPS((shot.ammo.mv >> U.FPS) - 350.0)
+            elif e == 'wind':
+                shot.winds = [pb.Wind(U.MPH(30), U.Degree(0 if len(shot.winds) % 2 else 180), U.Yard(50 * k)), pb.Wind(U.MPH(10), U.Degree(90))]
+            elif e == 'humid':
+                shot.atmo.humidity = 100 if shot.atmo.humidity == 0 else 0
+            elif e == 'look':
+                shot.look_angle = U.Degree((shot.look_angle >> U.Degree) + 7.0)
+            elif e == 'bc':
+                shot.ammo.dm.BC = shot.ammo.dm.BC * 0.7
+            elif e == 'atmo':
+                shot.atmo = pb.Atmo(U.Foot(6000), U.InHg(24.0), U.Fahrenheit(20), 50)
+        lk = shot.look_angle >> U.Degree
+        x = d_yd * 3.0 * math.cos(math.radians(lk))
+        n += 1
+        calc.set_weapon_zero(shot, U.Yard(d_yd))
+        p = [r for r in calc.fire(shot, U.Foot(x), U.Foot(x)).trajectory if r.flag & 8][-1]
+        td = abs(p.target_drop >> U.Foot)
+        bound = ACC + MAX_STEP * abs(math.tan((p.angle >> U.Radian) - math.radians(lk))) + 1e-9
+        if td > bound:
+            out.append({'msg': f'look {look} deg, {d_yd} yd: after zeroing and the in-place edits {list(edits[:k])}, zeroing again leaves the trajectory {td * 12:.4f} in from the sight line at the aim point (allowed {bound * 12:.4f} in)', 'key': None})
+            break
+    return {'v': out, 'n': n, 'nt': cell if edits else None}
+
+
+PARTS = {'zero': zero, 'fail': zero, 'sequence': sequence, 'rezero': rezero}
 
 
 def plan(tier):
@@ -185,4 +230,5 @@ def plan(tier):
     for look, d in ((-25.0, 2000.0), (-40.0, 1500.0), (-30.0, 1000.0), (30.0, 1000.0)):
         cells.append([look, d, 0.0, 'none', 'alt12k', 2.0])
     seqs = [[look, [100.0, 200.0, 300.0, 400.0, 500.0, 600.0, 700.0, 800.0, 100.0, 300.0, 500.0, 150.0], 'base'] for look in (0.0, 10.0, -30.0)]
-    return [('zero', cells), ('fail', fails), ('sequence', seqs)]
+    rz = [[look, d, list(e)] for look in (0.0, 10.0) for d in (300.0, 600.0) for L in range(0, 3 if tier == 'quick' else 4) for e in itertools.product(EDITS, repeat=L)]
+    return [('zero', cells), ('fail', fails), ('sequence', seqs), ('rezero', rz)]
